@@ -220,13 +220,13 @@ func init() {
 			Rule: "ParseCardConstrs via CardConstr/AtLeast1/AtMost1/Exactly1; " + rule},
 		vf.Sub[Case]{Name: "pb-structured", Quick: 4000, Thorough: 50000, Gen: genStructured("pb"), Check: check, Floor: 0.5,
 			Classes: map[string]float64{"conflicts>0": 0.2},
-			Rule: "ParsePBConstrs: pigeonhole with at-most-one rows (variables renamed, constraints shuffled) dense systems of 6..14 loose-degree constraints over 6..10 variables, and long constraints (7..14 literals, degree 2..5) with unit constraints and short clauses over 10..14 variables, tiny learned-clause limit in half of the cases; " + rule},
+			Rule:    "ParsePBConstrs: pigeonhole with at-most-one rows (variables renamed, constraints shuffled) dense systems of 6..14 loose-degree constraints over 6..10 variables, and long constraints (7..14 literals, degree 2..5) with unit constraints and short clauses over 10..14 variables, tiny learned-clause limit in half of the cases; " + rule},
 		vf.Sub[Case]{Name: "pb-knapsack", Quick: 8000, Thorough: 80000, Gen: genKnapsack, Check: check, Floor: 0.8,
 			Classes: map[string]float64{"conflicts>0": 0.5, "sat": 0.3, "unsat": 0.1},
-			Rule: "ParsePBConstrs: n..2n tight rows (>= with degree 25..55 % of the sum of the coefficients, or the equivalent <=) with coefficients 1..9 over 5..9 of n = 8..12 variables, tiny learned-clause limit in a third of the cases; same oracle; non-trivial as above"},
+			Rule:    "ParsePBConstrs: n..2n tight rows (>= with degree 25..55 % of the sum of the coefficients, or the equivalent <=) with coefficients 1..9 over 5..9 of n = 8..12 variables, tiny learned-clause limit in a third of the cases; same oracle; non-trivial as above"},
 		vf.Sub[Case]{Name: "card-structured", Quick: 4000, Thorough: 50000, Gen: genStructured("card"), Check: check, Floor: 0.5,
 			Classes: map[string]float64{"conflicts>0": 0.2},
-			Rule: "ParseCardConstrs: the same structured families; " + rule},
+			Rule:    "ParseCardConstrs: the same structured families; " + rule},
 	)
 }
 
